@@ -65,7 +65,7 @@ func vhRunOne(fn func([]int), params []int, vec []string, sched []int, useSched 
 	}
 }
 
-var vhWatchdog = 8 * time.Second
+var vhWatchdog = 2 * time.Second
 
 func vhRunGuarded(fn func([]int), params []int) (outcome, detail string) {
 	defer func() {
